@@ -2,6 +2,12 @@ package frugal
 
 // C06: the inbound path never stalls (no head-of-line blocking).
 
+import (
+	"time"
+
+	"github.com/nats-io/nats.go"
+)
+
 func init() {
 	verifHarnesses["VerifC06_AdapterNoHOL"] = VerifC06_AdapterNoHOL
 }
@@ -28,6 +34,7 @@ func verifRequest(ft FTransport, ctx FContext, done chan verifResult) {
 // fresh request whose response must still be delivered.
 func VerifC06_AdapterNoHOL() {
 	pipe := newVerifPipe()
+	pipe.coalesce = verifChoice(2) == 1 // frames arrive one per read, or back to back in one segment
 	ft := NewAdapterTransport(pipe)
 	verifAssert(ft.Open() == nil, "open")
 
@@ -98,5 +105,45 @@ func VerifC06_DispatchNeverBlocks() {
 	if !had {
 		verifReach("unknown")
 	}
+	verifReach("end")
+}
+
+func init() {
+	verifHarnesses["VerifC06_NatsDuplicateContext"] = VerifC06_NatsDuplicateContext
+}
+
+// NATS client transport: while request A is in flight, a second request issued with the
+// SAME FContext (same op id) is rejected; that rejected request must not disturb A, whose
+// response, arriving afterwards, still completes it.
+func VerifC06_NatsDuplicateContext() {
+	b := newVerifBroker()
+	tr := NewFNatsTransport(&nats.Conn{}, "svc", "_INBOX.c").(*fNatsTransport)
+	verifAssert(tr.Open() == nil, "open")
+	c := NewFContext("c")
+	c.SetTimeout(time.Hour) // a lost response shows as TIMED_OUT
+	var replyTo string
+	seen := make(chan struct{}, 4)
+	b.onPublish = func(p verifPub) {
+		if p.reply != "" && replyTo == "" {
+			replyTo = p.reply // request A's reply subject
+			seen <- struct{}{}
+		}
+	}
+	done := make(chan verifResult, 1)
+	go verifRequest(tr, c, done)
+	<-seen // the server has A
+	// a stray second request on the same context
+	if verifParam() == 0 {
+		_, err := tr.Request(c, []byte{0, 0, 0, 1, 9})
+		verifAssert(err != nil, "a request whose op id is already in flight is rejected")
+	} else {
+		verifAssert(tr.Oneway(c, []byte{0, 0, 0, 1, 9}) == nil || true, "a oneway on the same context is not tracked")
+	}
+	// now the server answers A
+	b.inject(replyTo, "", verifResponseFrame(verifOpID(c), []byte{1}))
+	r := <-done // a lost response is a deadlock here
+	verifAssert(r.err == nil, "request A completes")
+	verifAssert(r.valid && r.opid == verifOpID(c) && len(r.data) == 1 && r.data[0] == 1, "with its own response")
+	verifAssert(tr.Close() == nil, "close")
 	verifReach("end")
 }
